@@ -871,7 +871,7 @@ def r_tryfold(body):
             raise Unsupported("R-tryfold: cannot split arguments")
         init = parts[0].strip()
         clos = ",".join(parts[1:]).strip()
-        cm = re.match(r"\|\s*(mut\s+)?(\w+)\s*(?::[^,|]+)?,\s*(ref\s+|&\s*)?(\(?[\w\s,&_]+\)?)\s*(?::[^|]+)?\|\s*", clos)
+        cm = re.match(r"\|\s*(mut\s+)?(\w+)\s*(?::[^,|]+)?,\s*(ref\s+|&\s*)?(\(?[\w\s,&_()]+\)?)\s*(?::[^|]+)?\|\s*", clos)
         if not cm:
             raise Unsupported("R-tryfold: closure head not recognised: " + clos[:60])
         acc, pat = cm.group(2), cm.group(4).strip()
@@ -1549,6 +1549,10 @@ def emit_fn(f, udir, unit_props, recs, log_global):
         if "tryfold" in rewrites:
             body, l = r_tryfold(body)
             log += l
+            if "enumerate" in rewrites:
+                # a fold over `.enumerate()` has become a `for` over it: number it now
+                body, l = r_enumerate(body)
+                log += l
         if "mutself" in rewrites:
             sig, body, l = r_mutself(sig, body)
             log += l
